@@ -39,6 +39,8 @@ ClsNA  == L(<<cLB, cBANG, cA, cRB>>, 0)
 ClsUA  == L(<<cLB, cUA, cRB>>, 0)
 ClsAB  == L(<<cLB, cA, cDASH, cB, cRB>>, 0)
 ClsSep == L(<<cLB, cSEP, cRB>>, 0)
+ClsDot == L(<<cLB, cDOT, cRB>>, 0)     \* classes used to escape: one punctuation / meta character
+ClsStar == L(<<cLB, cSTAR, cRB>>, 0)
 
 Lexemes(fam) ==
   CASE fam = "core" ->
@@ -49,7 +51,7 @@ Lexemes(fam) ==
            Open, Comma, Close>>
     [] fam = "dots" ->
          <<P(cDOT), P(cA), P(cSEP), P(cSTAR), P(cDOL), Tree, Open, Comma, Close,
-           ROpen, RClose, R01, R1x, R2>>
+           ROpen, RClose, R01, R1x, R2, ClsDot, ClsStar>>
     [] fam = "cls" ->
          <<P(cA), P(cB), P(cSEP), P(cQ), ClsA, ClsNA, ClsAB, ClsSep, P(cKIN), FlagI, ROpen, R12, R1>>
     [] fam = "mini" ->
